@@ -432,4 +432,69 @@ theorem ends_clean_for_every_option_list (ws : List Int) (c : Cfg) (hc : c.worke
   obtain ⟨s', h1, _, h3, h4, h5⟩ := every_run_ends_clean_now c hf (by rw [hc]; exact workersOf_ge_one ws) hr s h
   exact ⟨s', h1, h3, h4, h5⟩
 
+/-! ### the decision for nil / ErrReduceNoOutput
+
+FULL STATEMENT (not proven; runtime monitor "returned nil although a function had returned an error" /
+"returned before every function ran" in Driver.lean):
+
+    theorem finish_nil_only_if_all_ok (fns : List FnAct) (s : St) (h : ReachA (finishCfg fns) s)
+        (hr : result s = some (.err .noOutput)) : ∀ f ∈ fns, f = .ok
+
+Missing for it: an invariant that ties the executed prefix of every mapper script to `once = 0` / `failed = 0`
+and "every item was handed out" to a dispatcher that left its loop with `once = 0`.  Proven instead: what holds at
+the moment the caller decides (any configuration, any schedule). -/
+
+/-- **The caller decides for ErrReduceNoOutput (nil for MapReduceVoid / Finish) only when no cancel has even begun,
+the reducer goroutine has ended, the collector is closed and empty, and every mapper goroutine has ended**
+(so every function that was started has returned, and none of them had called cancel). -/
+theorem nil_decision_partial (c : Cfg) (s s' : St) (h : ReachA c s) (hs : step c s .callerOut = some s')
+    (hr : s'.cpc = .defer (.err .noOutput)) :
+    s.retErr = none ∧ s.once = 0 ∧ s.fin = true ∧ s.rpc = .done ∧ s.collClosed = true ∧ s.collQ = [] ∧ s.wg = 0 ∧
+    ∀ i, inWg (s.mp i) = false := by
+  have R := reachA_reach h
+  have IC := invC_reach R
+  have IB := invB_reach R
+  have IE := invE_reach R
+  simp only [step] at hs
+  split at hs
+  next hc =>
+    simp at hs; subst hs
+    simp only [CPc.defer.injEq] at hr
+    have hret : s.retErr = none := by
+      unfold outRes at hr
+      cases he : s.retErr with
+      | none => rfl
+      | some e =>
+        rw [he] at hr
+        simp at hr
+        have := IC.ret e he
+        rw [hr] at this
+        exact this.elim
+    have honce : s.once = 0 := by
+      cases Nat.eq_zero_or_pos s.once with
+      | inl h0 => exact h0
+      | inr h0 => exact absurd hret (IC.once1 (by omega))
+    have hrd : s.rpc = .done := by
+      rcases IC.finw hc.2 with h2 | h2
+      · omega
+      · exact h2
+    have hcq := IE.r1 (by simp [hrd, rAfterDrain])
+    have hwg : s.wg = 0 := IB.dafter (IB.collc hcq.1).1
+    refine ⟨hret, honce, hc.2, hrd, hcq.1, hcq.2, hwg, fun i => ?_⟩
+    by_cases hi : i < c.n
+    · have := cnt_ge inWg s.mp c.n i hi
+      rw [← IB.wgc, hwg] at this
+      cases hx : inWg (s.mp i) <;> simp [hx, b2n] at this ⊢
+    · have : s.mp i = .idle := by
+        cases hm : s.mp i with
+        | idle => rfl
+        | _ => exact absurd (IC.mlt i (by simp [hm])) hi
+      simp [this, inWg]
+  next => simp at hs
+
+/-- non-vacuity: the decision point is reached in a plain Finish of three nil functions. -/
+example : let c := finishCfg [.ok, .ok, .ok]
+    let s := runPrioA c [.gen, .disp, .mapper 0, .mapper 1, .mapper 2, .red] 400 (init c)
+    (step c s .callerOut).map (·.cpc) = some (.defer (.err .noOutput)) ∧ s.wg = 0 := by decide
+
 end GoZero.C10
